@@ -103,6 +103,27 @@ def c03_boundary():
                         rules = [{"remote": 0, "mtype": "CON", "nth": k, "after": 777, "do": do, "ptype": ptype}]
                         scripts.append(dict(base, events=[sub, far_end([sub])], rules=rules,
                                             tag=f"{do}:{ptype}@copy{k}:{at}:{factor}:{mr}"))
+    # the two message-ID spaces: the peer has recently used, for a message of its own (request, ping), the very
+    # message ID our next CON gets; its ACK / RST for our CON must still be taken as such
+    for theirs in ("CON-req", "NON-req", "CON-ping", "dup-req"):
+        for do in ("ack", "rst", "sep"):
+            for k in (1, 2):
+                at, factor, mr = TUNINGS[0]
+                ev = []
+                if theirs == "CON-ping":
+                    ev.append(["R", 300, 0, False, "CON", 0, 4096, "-", None, 0])
+                else:
+                    ev.append(request_in(300, 0, 4096, "c1", mtype="NON" if theirs == "NON-req" else "CON"))
+                    if theirs == "dup-req":
+                        ev.append(request_in(340, 0, 4096, "c1", mtype="CON"))
+                    ev.append(respond(400, 0, body=9))
+                sub = submit(1000, 0, 0, rel=True, maxretr=mr, tuning=[at, factor])
+                rules = [{"remote": 0, "mtype": "CON", "nth": k, "after": 500, "do": "ack" if do == "sep" else do}]
+                if do == "sep":     # empty ACK, then the response as a message of its own
+                    rules.append({"remote": 0, "mtype": "CON", "nth": k, "after": 900, "do": "sep", "pmid": 9000,
+                                  "body": 6})
+                scripts.append({"draws": [at], "mid": 4096, "events": ev + [sub, far_end([sub])], "rules": rules,
+                                "tag": f"mid-collision:{theirs}:{do}@copy{k}"})
     return scripts
 
 
@@ -238,6 +259,22 @@ def c14_boundary():
         ev.append(far_end(ev))
         scripts.append({"events": ev, "rules": rules, "draws": [2 * M + 7 * i for i in range(6)],
                         "tag": "nstart:" + variant})
+    # the peer has just used, for requests / pings of its own, the message IDs our next CONs get: its empty ACK or
+    # RST still ends our exchange and releases the held-back messages
+    for theirs in ("CON", "NON", "ping"):
+        for do in ("ack", "rst"):
+            ev = []
+            for i, mid in enumerate((4096, 4097)):
+                if theirs == "ping":
+                    ev.append(["R", 300 + 40 * i, 0, False, "CON", 0, mid, "-", None, 0])
+                else:
+                    ev.append(request_in(300 + 40 * i, 0, mid, "c%d" % i, mtype=theirs))
+                    ev.append(respond(500 + 40 * i, i, body=9))
+            ev += [submit(1000, 0, 0, rel=True), submit(1010, 1, 0, rel=True), submit(1020, 2, 0, rel=True)]
+            rules = [{"remote": 0, "mtype": "CON", "nth": k, "do": do, "after": 5000} for k in (1, 2, 3)]
+            ev.append(far_end(ev))
+            scripts.append({"events": ev, "rules": rules, "mid": 4096, "draws": [2 * M + 7 * i for i in range(6)],
+                            "tag": f"nstart:mid-collision:{theirs}:{do}"})
     return scripts
 
 
@@ -280,6 +317,13 @@ def c04_random(rng, cfg):
                                      code=events[-1][5] if events[-1][0] == "R" else GET, body=i + 1))
             if off > EL:
                 srv += 1        # processed as a new request
+    # a transport error reported for one of the peers (an answer bounced with ICMP unreachable, ...): what was
+    # received from it before must still be recognised as a duplicate afterwards
+    if rng.random() < 0.4:
+        tmax = max(e[1] for e in events)
+        for _ in range(rng.randrange(1, 3)):
+            events.append(["E", clock.at(rng.choice([rng.randrange(1, 3 * M), rng.randrange(1, min(tmax, EL) + 2)])),
+                           rng.randrange(3)])
     # own traffic whose message ids collide with the peers'
     if rng.random() < 0.6:
         for r in range(rng.randrange(1, 3)):
@@ -290,6 +334,35 @@ def c04_random(rng, cfg):
     events.sort(key=lambda e: e[1])
     events.append(far_end(events))
     return {"events": events, "rules": rules, "draws": [], "mid": first_mid, "tag": "random"}
+
+
+def c04_alias(rng, cfg):
+    """the application hands out ONE response object for all its (quickly answered, confirmable) requests; copies
+    of every request arrive afterwards: each still gets the acknowledgement that was sent for it"""
+    clock = Clock(rng)
+    EAD = cfg["emptyAckDelay"]
+    events = []
+    reqs = []
+    for i in range(rng.randrange(2, 5)):
+        remote = rng.randrange(3)
+        mid = 4096 + i if rng.random() < 0.7 else 4096
+        if (remote, mid) in [(r, m) for (r, m, _, _) in reqs]:
+            mid = 5000 + i
+        token = "%02x" % (0xa0 + i)
+        t0 = clock.after(EAD + 10, 3 * M)
+        events.append(request_in(t0, remote, mid, token, mtype="CON", body=i + 1))
+        events.append(respond(clock.at(t0 + rng.randrange(1, EAD - 1)), i, body=20 + i,
+                              code=rng.choice([CONTENT, CONTENT, NOT_FOUND])))
+        reqs.append((remote, mid, token, i + 1))
+    t = max(e[1] for e in events) + EAD
+    for _ in range(rng.randrange(2, 7)):
+        remote, mid, token, body = rng.choice(reqs)
+        t = clock.at(t + rng.choice([1, 1000, M, 20 * M]))
+        events.append(request_in(t, remote, mid, token, mtype="CON", body=body))
+    events.sort(key=lambda e: e[1])
+    events.append(far_end(events))
+    return {"events": events, "rules": [], "draws": [], "mid": 9000, "tag": "aliased-response-object",
+            "alias_responses": True}
 
 
 CODE_CLASSES = {
@@ -337,6 +410,41 @@ def c10_table():
                     scripts.append({"events": ev, "rules": rules, "draws": [],
                                     "tag": f"nr:{mtype}:{speed}:{nr}:{code}"})
     # multicast destination
+    # message IDs at the ends of the 16-bit space x handler speed x No-Response
+    for mid in (0, 1, 0x7FFF, 0x8000, 0xFFFF):
+        for speed in ("fast", "slow"):
+            for nr in (0, 2, 26):
+                for mtype in ("CON", "NON"):
+                    t = 5000
+                    ev = [request_in(t, 0, mid, "cd", mtype=mtype, body=1)]
+                    ev.append(respond(t + (50000 if speed == "fast" else 200000), 0, body=6, nr=nr))
+                    ev.append(far_end(ev))
+                    rules = [{"remote": 0, "mtype": "CON", "nth": 1, "do": "ack", "after": 700}]
+                    scripts.append({"events": ev, "rules": rules, "draws": [],
+                                    "tag": f"request-mid:{mid}:{mtype}:{speed}:nr{nr}"})
+    # a CON of ours to the peer is still unacknowledged (a separate response, or a request) when a new CON request
+    # of that peer is answered quickly: its piggy-backed / empty ACK is not a CON and must not wait in the queue
+    for first in ("separate-response", "own-request"):
+        for late_ack in (None, 3 * M):
+            for nr in (0, 26):
+                for speed in ("fast", "slow"):
+                    t = 5000
+                    ev, srv = [], 0
+                    if first == "separate-response":
+                        ev += [request_in(t, 0, 901, "c1", mtype="CON", body=1), respond(t + 200000, 0, body=5)]
+                        srv = 1
+                    else:
+                        ev.append(submit(t + 200000, 0, 0, rel=True))
+                    tb = t + 400000
+                    ev.append(request_in(tb, 0, 902, "c2", mtype="CON", body=2))
+                    ev.append(respond(tb + (1000 if speed == "fast" else 200000), srv, body=6, nr=nr))
+                    ev.append(far_end(ev))
+                    rules = []
+                    if late_ack:
+                        rules.append({"remote": 0, "mtype": "CON", "nth": 1, "do": "ack", "after": late_ack})
+                        rules.append({"remote": 0, "mtype": "CON", "nth": 2, "do": "ack", "after": 900})
+                    scripts.append({"events": ev, "rules": rules, "draws": [2 * M + 5, 2 * M + 9],
+                                    "tag": f"ack-behind-open-exchange:{first}:{late_ack}:nr{nr}:{speed}"})
     for rel in (True, None, False):
         for mtype in (None, "CON", "NON"):
             ev = [submit(1000, 0, 9, rel=rel, mc=True, mtype=mtype)]
@@ -417,6 +525,13 @@ def c02_random(rng, cfg, with_shutdown=None):
                            rng.choice(["CON", "NON", "ACK"]), CONTENT, 5000 + r, forged_tok, None, 666])
     if rng.random() < 0.25:
         events.append(["E", clock.at(rng.randrange(1, 60 * M)), rng.randrange(3)])
+    if rng.random() < 0.25:
+        # a multicast request stays outstanding (it is not tied to one responding endpoint) while transport
+        # errors and time-outs for other requests are reported
+        events.append(submit(clock.at(rng.randrange(1, 5 * M)), 40, 9, rel=False, mc=True))
+        if rng.random() < 0.5:
+            events.append(["R", clock.at(rng.randrange(6 * M, 20 * M)), rng.randrange(3), False, "NON", CONTENT, 7000,
+                           "%02x" % (token0 + 1 + nreq), None, 240])
     if rng.random() < 0.15:
         victim = rng.randrange(nreq)
         tsub = [e[1] for e in events if e[0] == "S" and e[2] == victim][0]
@@ -428,6 +543,12 @@ def c02_random(rng, cfg, with_shutdown=None):
         events.append(["X", ts])
         if rng.random() < 0.5:
             events.append(submit(clock.at(ts + rng.randrange(1, M)), nreq, 0, rel=True))
+        if rng.random() < 0.5:
+            # a request submitted while the shutdown is in progress (same tick, k loop iterations later): it, too,
+            # completes exactly once with the shutdown error
+            ev = submit(ts, nreq + 1, rng.randrange(3), rel=rng.random() < 0.5)
+            ev += [None, rng.randrange(0, 7)]
+            events.append(ev)
         events.sort(key=lambda e: e[1])
     events.append(far_end(events))
     return {"events": events, "rules": rules, "draws": draws, "tag": "random"}
@@ -451,6 +572,13 @@ def c18_random(rng, cfg):
             events.append(respond(clock.at(t + rng.choice([50000, 200000, 3 * M])), srv, body=i,
                                   last=rng.random() < 0.6, obs=rng.choice([None, 1])))
         srv += 1
+        if rng.random() < 0.3:
+            # the same peer issues a new request on the same token (renewed observation, recycled token) while the
+            # first one is still being served
+            prev = events[-1] if events[-1][0] == "R" else events[-2]
+            events.append(request_in(clock.at(t + rng.choice([7, 150000, 4 * M])), prev[2], 760 + i, prev[7],
+                                     mtype=mtype, obs=rng.choice([None, 0]), body=20 + i))
+            srv += 1
     events.sort(key=lambda e: e[1])
     horizon = events[-1][1] + 2 * M
     ts = clock.at(rng.choice([rng.randrange(1, horizon), events[rng.randrange(len(events))][1] + rng.choice([1, 1000, 104858 - 1, 104858 + 1])]))
@@ -487,6 +615,70 @@ def c18_handler(rng):
     events.append(far_end(events))
     return {"events": events, "rules": [], "draws": [], "tag": "handler-request",
             "oracle_only": "handler-awaits-own-request", "second_context": True}
+
+
+def c18_obs_cancelled(rng):
+    """observing requests whose observation the application cancels (before the first response, or after it),
+    other requests outstanding, then shutdown.  Oracle-only (the model has no ClientObservation objects)."""
+    clock = Clock(rng)
+    events, rules = [], []
+    n = rng.randrange(1, 4)
+    for r in range(n):
+        t = clock.after(100, M)
+        observing = r == 0 or rng.random() < 0.5
+        events.append(submit(t, r, r % 3, rel=rng.random() < 0.7, observing=observing))
+        if observing and (r == 0 or rng.random() < 0.7):
+            events.append(["O", clock.at(t + rng.choice([1, 500, 3 * M])), r])
+        if rng.random() < 0.4:
+            rules.append({"remote": r % 3, "mtype": None, "nth": 1, "after": rng.choice([300, 2 * M]),
+                          "do": "piggy" if events[-1][0] != "O" and rng.random() < 0.5 else "ack",
+                          "obs": rng.choice([None, 5]), "body": 7})
+    events.sort(key=lambda e: e[1])
+    ts = clock.at(events[-1][1] + rng.choice([1, 1000, 3 * M]))
+    events.append(["X", ts])
+    if rng.random() < 0.6:
+        events.append(submit(clock.at(ts + rng.randrange(1, 3 * M)), 50, 0, rel=True))
+    events.sort(key=lambda e: e[1])
+    events.append(far_end(events))
+    return {"events": events, "rules": rules, "draws": [], "tag": "observation-cancelled",
+            "oracle_only": "application-cancelled-observation", "second_context": True}
+
+
+def c18_obs_consumer(rng):
+    """an established observation the application iterates over with `async for`; notifications arrive around --
+    and in the very loop iteration of -- the shutdown call.  Oracle-only."""
+    clock = Clock(rng)
+    events = []
+    tok = "21"          # first token of the pinned counter (script token 32 -> 0x21)
+    events.append(submit(1000, 0, 0, rel=True, observing=True))
+    rules = [{"remote": 0, "mtype": "CON", "nth": 1, "after": 500, "do": "piggy", "obs": 1, "body": 1}]
+    t = 1000 + 500
+    mid = 5000
+    for i in range(rng.randrange(0, 4)):
+        t = clock.at(t + rng.choice([1, 1000, M]))
+        events.append(["R", t, 0, False, "NON", CONTENT, mid, tok, 2 + i, 2 + i])
+        mid += 1
+    ts = clock.at(t + rng.choice([1, 1000, 2 * M]))
+    note = ["R", ts, 0, False, rng.choice(["NON", "CON"]), CONTENT, mid, tok, 50, 50]
+    k = rng.randrange(6)
+    if k == 0:
+        # the application calls shutdown(); the datagram is dispatched later in the same loop iteration
+        events.append(["N", ts, [["X", ts, rng.random() < 0.7], note]])
+    elif k == 1:
+        events.append(["N", ts, [note, ["X", ts, rng.random() < 0.7]]])
+    elif k == 2:
+        events += [["N", ts, [note]], ["X", ts + 1]]
+    elif k == 3:
+        events += [["X", ts], ["N", ts + 1, [note]]]
+    elif k == 4:
+        events.append(["N", ts, [note, ["R", ts, 0, False, "NON", CONTENT, mid + 1, tok, 51, 51],
+                                 ["X", ts, rng.random() < 0.7]]])
+    else:
+        events.append(["X", ts])
+    events.sort(key=lambda e: e[1])
+    events.append(far_end(events))
+    return {"events": events, "rules": rules, "draws": [], "tag": "observation-consumer", "consume": True,
+            "oracle_only": "application-iterates-observation", "second_context": True}
 
 
 def c02_boundary():
